@@ -580,11 +580,11 @@ fn main() {
             l
         );
         let mut rng = Rng::new(args.seed).fork();
-        let n_rand = if args.thorough() { 40_000 } else { 900 };
+        let n_rand = if args.thorough() { 25_000 } else { 900 };
         for _ in 0..n_rand {
             cases.push(random_case(&mut rng));
         }
-        let n_rank = if args.thorough() { 30_000 } else { 900 };
+        let n_rank = if args.thorough() { 20_000 } else { 900 };
         for _ in 0..n_rank {
             cases.push(ranking_case(&mut rng));
         }
